@@ -70,7 +70,8 @@ struct ApiRun {
     std::vector<RCif> cifs; std::vector<HCont> conts; std::vector<HLoop> loops; std::vector<HPacket> packets; std::vector<HIter> iters;
     uint64_t next_uid = 1;
     int cur_op = -1; int cur_kind = 0;
-    int last_rc = 0; int forced_cont = -1, forced_loop = -1; bool tx_other_mods = false; MCif tx_alt_model;
+    int last_rc = 0; int forced_cont = -1, forced_loop = -1; bool beside_ok = false;   // beside_ok: this (read-only) op may address a CIF with an open iterator, away from the iterated loop
+    bool tx_other_mods = false; MCif tx_alt_model;
 
     ApiRun(const RunSpec &s, const ApiCfg &c);
     RunResult run();
